@@ -274,6 +274,21 @@ func (env *Env) modLocs(e Expr) ([]modLoc, error) {
 		} else {
 			inner = x.(*EIndex).X
 		}
+		// as(x, T)[..] where x is known to hold a value of another type: nothing of T is written (a contract shared by
+		// several dynamic types, such as sort.Sort's, lists the locations per type)
+		if c, ok := inner.(*ECall); ok && len(c.Args) == 2 {
+			if id, ok := c.Fn.(*EIdent); ok && id.Name == "as" {
+				if xv, err := env.eval(c.Args[0]); err == nil {
+					if iv, ok := xv.V.(IfaceV); ok {
+						if t, err := env.typeArg(c.Args[1]); err == nil {
+							if n, isNum := iv.Tag.numeral(); isNum && n.Int64() != int64(ex.ctx.typeID(t)) {
+								return nil, nil
+							}
+						}
+					}
+				}
+			}
+		}
 		v, err := env.eval(inner)
 		if err != nil {
 			return nil, err
@@ -285,7 +300,18 @@ func (env *Env) modLocs(e Expr) ([]modLoc, error) {
 			}
 			et := v.T.Underlying().(*types.Slice).Elem()
 			if kindOf(et) == KStruct {
-				return nil, fmt.Errorf("modifies on slices of structs is not supported")
+				// every field of every element of the backing array (over-approximation of the slice's range)
+				stt := structOf(et)
+				for i := 0; i < stt.NumFields(); i++ {
+					ft := stt.Field(i).Type()
+					if k := kindOf(ft); k == KStruct || k == KArray {
+						return nil, fmt.Errorf("modifies on slices of structs with nested struct fields is not supported")
+					}
+					for _, c := range leafComps(ft) {
+						out = append(out, modLoc{typeKey(et) + "." + stt.Field(i).Name() + c.Suffix, ArrSort(c.Sort), LBase, p.Arr})
+					}
+				}
+				return out, nil
 			}
 			addLeaf(Loc{Kind: LHeap2, Heap: "[]" + typeKey(et), Ref: p.Arr, Typ: et})
 			return out, nil
@@ -884,7 +910,11 @@ func (ex *Exec) frameCheck(st *State, env *Env, fc *FuncContract) {
 			r := ex.D.Fresh("frame.r", SInt)
 			conds := []Term{Le(App(SInt, "root", r), top0)}
 			for _, l := range allowed[name] {
-				conds = append(conds, Neq(r, l.ref))
+				if l.kind == LBase {
+					conds = append(conds, Neq(App(SInt, "subbase", r), l.ref))
+				} else {
+					conds = append(conds, Neq(r, l.ref))
+				}
 			}
 			goal = Implies(And(conds...), Eq(Select(cur, r), Select(old, r)))
 		}
